@@ -143,29 +143,36 @@ def isFn : DS → Bool
   | .fn _ _ _ _ => true
   | _ => false
 
+/-- name clashes of a block-like statement list; `outer` = names that must not be redeclared lexically -/
+def scopeClash (outer : List String) (l : List DS) : Bool :=
+  hasDup (lexNamesL l) || meets (lexNamesL l) (varNamesL l) || meets (lexNamesL l) outer
+
+/-- name clashes at the top level of a function body / program -/
+def bodyClash (params : List String) (l : List DS) : Bool :=
+  hasDup (lexNamesL l) || meets (lexNamesL l) (varNamesL l) || meets (lexNamesL l) params
+    || meets (lexNamesL l) ((fnDeclsL l).map (·.1))
+
 mutual
-/-- early errors inside a statement (`top` = the statement is an item of a function body / program) -/
+/-- early errors inside a statement -/
 def earlyS : DS → Bool
   | .ifS _ t e => earlyS t || earlyS e
-  | .block l => earlyScope [] l
+  | .block l => scopeClash [] l || earlyItems l
   | .forS _ i _ _ b =>
       constNoInit i || hasDup ((lexDeclsS i).map (·.1)) || meets ((lexDeclsS i).map (·.1)) (varNamesL b)
-        || earlyScope [] b
-  | .tryS b x _ cb => earlyScope [] b || earlyScope [x] cb
-  | .fn _ _ ps body => hasDup (ps.map (·.1)) || earlyBody (ps.map (·.1)) body
+        || (scopeClash [] b || earlyItems b)
+  | .tryS b x _ cb => (scopeClash [] b || earlyItems b) || (scopeClash [x] cb || earlyItems cb)
+  | .fn _ _ ps body => hasDup (ps.map (·.1)) || (bodyClash (ps.map (·.1)) body || earlyItems body)
   | s => constNoInit s
-/-- early errors of a block-like statement list; `outer` = names that must not be redeclared lexically -/
-def earlyScope (outer : List String) : List DS → Bool
-  | l => hasDup (lexNamesL l) || meets (lexNamesL l) (varNamesL l) || meets (lexNamesL l) outer
-      || earlyItems l
-/-- early errors of a function body / program -/
-def earlyBody (params : List String) : List DS → Bool
-  | l => hasDup (lexNamesL l) || meets (lexNamesL l) (varNamesL l) || meets (lexNamesL l) params
-      || meets (lexNamesL l) ((fnDeclsL l).map (·.1)) || earlyItems l
 def earlyItems : List DS → Bool
   | [] => false
   | s :: t => earlyS s || earlyItems t
 end
+
+/-- early errors of a block-like statement list -/
+def earlyScope (outer : List String) (l : List DS) : Bool := scopeClash outer l || earlyItems l
+
+/-- early errors of a function body / program -/
+def earlyBody (params : List String) (l : List DS) : Bool := bodyClash params l || earlyItems l
 
 mutual
 /-- function declarations only as items of a function body / the program (elsewhere: outside the fragment) -/
